@@ -195,6 +195,8 @@ class Run:
         self.status = None
         self.ret = None
         self.ncell = 0
+        self.zeros = set()
+        self.cellinit = {}
         self.nframe = 0
         self.depth = 0
         self.steps = 0
@@ -212,6 +214,8 @@ class Run:
             else:
                 raise NeedDecision()
         self.conds.append((term, bool(v)))
+        if not v:
+            self.zeros.add(term)      # decided false: the term is 0 from here on
         return bool(v)
 
     def truth(self, t, node=None):
@@ -226,22 +230,55 @@ class Run:
             return True
         if h == "not":
             return not self.truth(t[1], node)
+        if h == "ap" and t[1] == "bool" and len(t) == 3:
+            return self.truth(t[2], node)
         if h == "eq":
             if t[1] == t[2]:
                 return True
             if is_const(t[1]) and is_const(t[2]):
                 return False
+            # x == 0 is decided through the truth value of x, so that `if (x)`, `x != 0` and `!x` share one decision
+            if t[1] == C(0) and not is_const(t[2]):
+                return not self.truth(t[2], node)
+            if t[2] == C(0) and not is_const(t[1]):
+                return not self.truth(t[1], node)
             d = self.X.distinct
             if t[1] in d and t[2] in d:
                 return False
         return self.decide(t, node)
 
     # ---------------------------------------------------------------- cells
-    def new_cell(self, val):
+    def new_cell(self, val, loc=None):
         self.ncell += 1
         c = ("cell", self.ncell)
         self.store[c] = val
+        if loc is not None:
+            self.cellinit[c] = loc
         return c
+
+    def locterm(self, n, fr):
+        """where a stream read `s >> X` stores: the access path of X with parameters bound to their initial atoms (the current
+        VALUE of X is irrelevant for a location)"""
+        if n is None:
+            return ("a", "?")
+        k = n.get("k")
+        if k == "ref" and n.get("dk") in ("local", "parm"):
+            cell = self.lvalue(n, fr)
+            loc = self.cellinit.get(cell) if cell[0] == "cell" else None
+            return loc if loc is not None else ("var", ctype(n))
+        if k == "mem":
+            b = n.get("base")
+            return ("f", fr.this if (b is None or b.get("k") == "this") else self.locterm(b, fr), n["n"])
+        if k in ("cast", "defarg", "definit", "stdinit", "opaque"):
+            return self.locterm(n.get("e"), fr)
+        if (k == "opcall" and n.get("op") == "[]" and len(n["args"]) == 2) or k == "index":
+            base = n["args"][0] if k == "opcall" else n["base"]
+            idx = n["args"][1] if k == "opcall" else n["idx"]
+            it = self.ev(idx, fr)
+            if isinstance(it, tuple) and it and it[0] == "idx":
+                return ("elem", self.locterm(base, fr))
+            return ("ap", "[]", self.locterm(base, fr), it)
+        return self.ev(n, fr)
 
     # lvalues: ("cell", n) | ("hp", base, field) | ("tmp", term)
     def load(self, lv):
@@ -323,9 +360,10 @@ class Run:
         return ("tmp", self.ev(n, fr))
 
     def _load(self, lv):
-        if lv[0] == "hpv":
-            return ("f", lv[3], lv[2])
-        return self.load(lv)
+        v = ("f", lv[3], lv[2]) if lv[0] == "hpv" else self.load(lv)
+        if v in self.zeros:
+            return C(0)
+        return v
 
     def _save(self, lv, val):
         if lv[0] == "hpv":
@@ -608,18 +646,17 @@ class Run:
             # member operator<< / >> : a stream operation mutating its left operand
             lv = self.lvalue(args[0], fr)
             base = self._load(lv)
-            t = self.ev(args[1], fr)
-            fn = self.X.callee(n)
-            if fn is not None and self.X.may_inline(fn, n) and self.depth < MAX_DEPTH:
-                pass
+            t = self.ev(args[1], fr) if op == "<<" else self.locterm(args[1], fr)
             self.events.append(Ev("op", op, [base, t], n, fr.func))
             new = ("ap", "mut:" + op, base, t, ("s", ctype(args[1])))
             self._slv = lv
             if lv[0] != "tmp":
                 self._save(lv, new)
                 if op == ">>":
+                    # what was read is an unknown: locals get a fresh read(...) term (they steer control flow); fields keep
+                    # their symbolic value
                     olv = self.lvalue(args[1], fr)
-                    if olv[0] != "tmp":
+                    if olv[0] == "cell":
                         self._save(olv, ("ap", "read", base))
             self._slv = lv
             return new
@@ -662,10 +699,12 @@ class Run:
                     nf.vars[key] = lv
                     continue
                 if lv[0] in ("hp", "hpv"):
-                    nf.vars[key] = self.new_cell(self._load(lv))
+                    v0 = self._load(lv)
+                    nf.vars[key] = self.new_cell(v0, loc=v0)
                     nf.__dict__.setdefault("writeback", []).append((nf.vars[key], lv))
                     continue
-            nf.vars[key] = self.new_cell(ts[i] if i < len(ts) else (self.ev(p.get("default"), fr) if p.get("default") else ("a", p["n"])))
+            v0 = ts[i] if i < len(ts) else (self.ev(p.get("default"), fr) if p.get("default") else ("a", p["n"]))
+            nf.vars[key] = self.new_cell(v0, loc=v0)
         self.depth += 1
         saved = (self.status, self.ret)
         self.status, self.ret = None, None
@@ -819,16 +858,16 @@ class Run:
             if k == "forrange":
                 rng = self.ev(s.get("range"), fr)
                 elem = ("elem", rng)
-                key = rng
+                key = self.locterm(s.get("range"), fr)
                 if s.get("var"):
-                    fr.vars[s.get("vard") or s["var"]] = self.new_cell(elem)
+                    fr.vars[s.get("vard") or s["var"]] = self.new_cell(elem, loc=("elem", self.locterm(s.get("range"), fr)))
             else:
                 c = self.ev(s["cond"], fr) if s.get("cond") is not None else C(1)
                 if is_const(c) and c[1] == 0:
                     return
                 ivar = self.X.canonical_index(s, fr, self)
                 if ivar is not None:
-                    key = ivar[1]
+                    key = ivar[2]
                     self.store[ivar[0]] = ("idx", ivar[1])
                 else:
                     # the counters the increment writes are symbolic during the summarised iteration
@@ -970,7 +1009,7 @@ class Explorer:
         cell = fr.vars.get(d.get("d") or d["n"])
         if cell is None:
             return None
-        return (cell, vec)
+        return (cell, vec, run.locterm(rhs.get("obj"), fr) if rhs.get("obj") is not None else vec)
 
     def explore(self, func, this=None, params=None, heap=None, limit=MAX_PATHS):
         """Enumerate the paths of func. params: {name: term}; heap: {(base, field): term}. -> [Outcome]"""
@@ -983,7 +1022,8 @@ class Explorer:
             run.heap.update(heap or {})
             for p in func.params:
                 key = p.get("d") or p["n"]
-                fr.vars[key] = run.new_cell((params or {}).get(p["n"], ("a", p["n"])))
+                v0 = (params or {}).get(p["n"], ("a", p["n"]))
+                fr.vars[key] = run.new_cell(v0, loc=v0 if isinstance(v0, tuple) and v0 and v0[0] == "a" else None)
             try:
                 for ini in func.d.get("inits", []) or []:
                     if ini.get("field") and ini.get("e") is not None and this is not None:
